@@ -1131,6 +1131,9 @@ package ggql
 //@   ensures[key-frame]{C01} forall k string :: k != fkey(field) ==> (has(result, k) <==> old(has(result, k))) && result[k] == old(result[k])
 //@   ensures[typename]{C01} old(field.ConType) != nil && field.Name == "__typename" && old(fdOf(t, field.Name)) == nil ==> has(result, fkey(field)) && result[fkey(field)] == box(t.Name()) && len(ea) == 0 && #res == old(#res)
 //@   ensures[declared-leaf-type]{C05} depth > 0 && old(field.ConType) != nil && !isMetaName(field.Name) && old(fdOf(t, field.Name)) != nil && isLeafT(old(fdOf(t, field.Name).Type)) && len(ea) == 0 && has(result, fkey(field)) && result[fkey(field)] != nil ==> conformsOut(result[fkey(field)], old(fdOf(t, field.Name).Type))
+//@   -- what is resolved below a field sees the variables of the request; the node __type describes is a type of the type table
+//@   atcall[same-vars]{C09,C01} resolve: arg2 == vars
+//@   atcall[type-meta-from-type-table]{C17} resolve: field.Name == "__type" ==> root.types != nil && root.types.dict != nil && (exists n string {root.types.dict[n]} :: has(root.types.dict, n) && root.types.dict[n] == arg1)
 //@   atcall[args-conform]{C04} Resolve: forall k string {args[k]} :: args != nil && has(args, k) && declaredIn(fd, k) ==> conformsIn(args[k], fd.args.dict[k].Type)
 //@   ensures[required-arg-missing-no-call]{C04,C02} old(field.ConType) != nil && !isMetaName(field.Name) && old(fdOf(t, field.Name)) != nil && (is(obj, Resolver) || root.AnyResolver != nil) && (exists k string :: old(nonNullArg(fdOf(t, field.Name), k)) && !old(suppliedUpTo(field.Args, k, len(field.Args)))) ==> len(ea) > 0 && #res == old(#res)
 //@   ensures[undeclared-argument]{C10} is(t, *Object) && old(fdOf(t, field.Name)) != nil && (exists i int {field.Args[i]} :: 0 <= i && i < old(len(field.Args)) && !old(argDeclared(t, field.Name, field.Args[i].Arg))) ==> len(ea) > 0 && #res == old(#res)
